@@ -417,6 +417,16 @@ func (ep *episode) faultPath(j *Job, ext string) (string, error) {
 // withFault wraps a top-level call with the activation of its disk fault.
 func (ep *episode) withFault(j *Job, jr *jobRun, path string, call func()) func() {
 	return func() {
+		if j.Pre > 0 && (j.Fault.Kind == "" || j.Fault.Kind == "fsize" || j.Fault.Kind == "vanish") {
+			// the path already holds something else (an older, larger or smaller export)
+			junk := make([]byte, j.Pre)
+			r := simcore.NewRNG(uint64(j.Pre) * 2654435761)
+			for i := range junk {
+				junk[i] = byte(r.Uint64())
+			}
+			os.WriteFile(path, junk, 0o644)
+			ep.probes["output-path-already-existed"]++
+		}
 		if j.Fault.Kind == "fsize" {
 			if err := setFsize(j.Fault.Budget); err != nil {
 				panic("setrlimit: " + err.Error())
